@@ -134,6 +134,10 @@ func (v FVal) Less(o FVal) bool {
 	}
 	switch v.Kind {
 	case KNumber:
+		// NaN has a fixed place: before every other number, equal only to NaN
+		if v.Num != v.Num || o.Num != o.Num {
+			return v.Num != v.Num && o.Num == o.Num
+		}
 		return v.Num < o.Num
 	case KString:
 		return lowerASCII(v.Data) < lowerASCII(o.Data)
@@ -143,6 +147,11 @@ func (v FVal) Less(o FVal) bool {
 
 // Same is equality under the order (neither is less).
 func (v FVal) Same(o FVal) bool { return !v.Less(o) && !o.Less(v) }
+
+// Identical is "the very same value": same kind and same text. A write of a
+// value that is merely Same as the stored one (other letter case, another
+// spelling of the number) still replaces it: values read back as written.
+func (v FVal) Identical(o FVal) bool { return v.Kind == o.Kind && v.Data == o.Data }
 
 // JSONValue is the value as it appears in JSON-mode replies, decoded:
 // json.Number, string, bool, nil, or a decoded container.
